@@ -1,0 +1,62 @@
+//go:build verif
+
+package mdns
+
+import (
+	"github.com/enbility/go-avahi"
+	"github.com/enbility/ship-go/api"
+	"github.com/enbility/ship-go/util"
+)
+
+// Hooks for runtime monitors. Only compiled with the "verif" build tag.
+
+// VerifAttach does what Start does after the provider selection, with a
+// provider chosen by the caller: start the provider with the managers
+// resolver callback, announce, and remember the report callback.
+func (m *MdnsManager) VerifAttach(provider api.MdnsProviderInterface, cb api.MdnsReportInterface) error {
+	m.mdnsProvider = provider
+	_ = m.mdnsProvider.Start(true, m.processMdnsEntry)
+
+	if err := m.AnnounceMdnsEntry(); err != nil {
+		return err
+	}
+
+	m.report = cb
+
+	return nil
+}
+
+// VerifResolveCB returns the resolver callback the manager hands to its provider
+func (m *MdnsManager) VerifResolveCB() api.MdnsResolveCB {
+	return m.processMdnsEntry
+}
+
+// VerifEntries returns a deep copy of the currently known entries
+func (m *MdnsManager) VerifEntries() map[string]*api.MdnsEntry {
+	m.mux.Lock()
+	defer m.mux.Unlock()
+
+	mdnsEntries := make(map[string]*api.MdnsEntry)
+	for k, v := range m.entries {
+		newEntry := &api.MdnsEntry{}
+		util.DeepCopy[*api.MdnsEntry](v, newEntry)
+		mdnsEntries[k] = newEntry
+	}
+
+	return mdnsEntries
+}
+
+// VerifParseTxt exposes the TXT record parser
+func VerifParseTxt(txt []string) map[string]string {
+	return parseTxt(txt)
+}
+
+// VerifNewAvahiProvider creates an avahi provider using the given server implementation
+func VerifNewAvahiProvider(ifaceIndexes []int32, server avahi.ServerInterface) *AvahiProvider {
+	return &AvahiProvider{
+		avServer:        server,
+		setupSuccessful: false,
+		ifaceIndexes:    ifaceIndexes,
+		serviceElements: make(map[string]map[string]string),
+	}
+}
